@@ -11,7 +11,9 @@ from harness.common import Ctx, drive, guard
 RULE = ("Hypothesis draws (dims 1-4, alphabet 2-5 values per coordinate, history of 0-10 rows possibly with repeats, batch "
         "size 1-6, pass budget 0-6, a script of rows the scripted sampler will hand out in order); oracle = sequential "
         "reference model of draw / find repeats / redraw-that-many / substitute; non-trivial = the first draw contains at "
-        "least one repeat; distinct = hash of the whole case.")
+        "least one repeat; distinct = hash of the whole case. In half of the cases the same sampler object is then asked 1-2 more "
+        "times (history grown by its own output / same shape with one older row altered / unrelated), each call judged by the "
+        "same reference model.")
 ASSUMPTIONS = ["rows compare by exact float equality (small integer alphabet); no NaN rows"]
 SHARDS = {"quick": 4, "thorough": 16}
 
@@ -31,7 +33,15 @@ def cases(draw):
     step, off = draw(st.sampled_from([(1.0, 0.0), (1.0, 0.0), (1e-6, 1.0), (1e-9, 0.0), (0.25, -1.0), (1e-7, 123.0)]))
     # a zero coordinate may be written as -0.0: the same point
     negz = draw(st.lists(st.integers(0, len(script) + len(hist) - 1), max_size=4)) if off == 0.0 else []
-    return {"d": d, "history": hist, "batch": b, "passes": p, "script": script, "step": step, "offset": off, "negzero": negz}
+    # the same sampler object is asked again: with the history grown by its own output, with a history of the same shape in
+    # which one older row differs, or with an unrelated one (a sampler has no memory of earlier histories)
+    more = []
+    for _ in range(draw(st.sampled_from([0, 0, 1, 2]))):
+        more.append({"mode": draw(st.sampled_from(["grow", "alter", "alter", "fresh"])), "idx": draw(st.integers(0, 9)),
+                     "row": draw(row), "history": draw(st.lists(row, min_size=0, max_size=10)),
+                     "script": draw(st.lists(row, min_size=b * (p + 1), max_size=b * (p + 1)))})
+    return {"d": d, "history": hist, "batch": b, "passes": p, "script": script, "step": step, "offset": off, "negzero": negz,
+            "more": more}
 
 
 def _model(hist, script, b, p):
@@ -81,6 +91,7 @@ def check_dedup(ctx: Ctx, case):
         if i < len(rows):
             rows[i] = tuple(-0.0 if v == 0.0 else v for v in rows[i])
     requested = []
+    cur = {"script": script}
 
     class Scripted(BaseSampler):
         def __init__(self):
@@ -89,7 +100,7 @@ def check_dedup(ctx: Ctx, case):
 
         def sample_batch(self, batch_size, search_space, existing_points, existing_losses):
             requested.append(int(batch_size))
-            out = np.array(script[self.pos:self.pos + batch_size], dtype=float).reshape(batch_size, d)
+            out = np.array(cur["script"][self.pos:self.pos + batch_size], dtype=float).reshape(batch_size, d)
             self.pos += batch_size
             return out
 
@@ -137,6 +148,31 @@ def check_dedup(ctx: Ctx, case):
         return
     if existing.tobytes() != e0.tobytes():
         ctx.fail("C12/history-modified", "sample() modified the history", sub, case)
+        return
+    # ---- later calls on the same object
+    for ci, m in enumerate(case.get("more", []), start=2):
+        lift = lambda rows: [tuple(off + float(x) * step for x in r) for r in rows]  # noqa: E731
+        if m["mode"] == "grow":
+            hist = hist + got
+        elif m["mode"] == "alter" and hist:
+            hist = list(hist)
+            hist[m["idx"] % len(hist)] = lift([m["row"]])[0]
+        else:
+            hist = lift(m["history"])
+        cur["script"] = lift(m["script"])
+        s.pos = 0
+        del requested[:]
+        existing = np.array(hist, dtype=float).reshape(len(hist), d)
+        sizes, model_out, flagged, first = _model(hist, cur["script"], b, p)
+        ctx.classes[f"{sub}:call-{ci}-{m['mode']}"] += 1
+        with guard(ctx, "C12/exception", sub, case):
+            out = s.sample(space, existing, np.arange(len(hist), dtype=float))
+        got = [tuple(r) for r in out.tolist()]
+        if out.shape != (b, d) or requested != sizes or Counter(got) != Counter(model_out) or \
+                any(i not in flagged and got[i] != first[i] for i in range(b)):
+            ctx.fail("C12/later-call", f"call {ci} on the same sampler object ({m['mode']} history of {len(hist)} rows): generator "
+                     f"asked for {requested} (reference {sizes}), returned {got} (reference {model_out})", sub, case)
+            return
 
 
 SUBCHECKS = {"dedup": check_dedup}
